@@ -18,7 +18,7 @@ ALL_FORMS = FORMS1 + ["cQc", "Qpk_c"] + ABSK_FORMS
 def relation_cases(tier, seed):
     """Every form x operator x constants (c in -3..3, k in -2..2; chains: constants in a 4-element
     set), for both quantities and both spellings of the quantity.  quick: the unary spelling in full
-    for the one-constant forms, a seeded third of the rest."""
+    for the one-constant forms, a fixed block of abs(offset) upper bounds, a seeded sample of the rest."""
     rnd = random.Random(seed * 1009 + 17)
     cases = []
     C = list(range(-3, 4))
@@ -47,7 +47,17 @@ def relation_cases(tier, seed):
                     full = rnd.sample(full, len(full) // 6)
                     part = rnd.sample(part, len(part) // 40)
                 else:
-                    part = rnd.sample(part, len(part) // 10)
+                    part = rnd.sample(part, len(part) // 14)
+                    # always: two-sided bounds around an offset, abs(Q +- k) / abs(k +- Q) with k of
+                    # either sign, constant bound on the right (<=, <) and on the left (>=, >)
+                    have = {(c["form"], tuple(c["ops"]), tuple(c["cs"])) for c in part}
+                    for f in ABSK_FORMS:
+                        for i, k in enumerate([-2, -1, 1, 2]):
+                            for c in (1, 3):
+                                strict = (i + c) % 2 == 1
+                                op = ("gt" if strict else "ge") if f.startswith("c_") else ("lt" if strict else "le")
+                                if (f, (op,), (c, k)) not in have:
+                                    part.append(dict(q=q, atom=atom, form=f, ops=[op], cs=[c, k]))
             cases += full + part
     for i, c in enumerate(cases):
         c["id"] = i + 1
@@ -128,10 +138,34 @@ def vbox(x0, y0, z0, x1, y1, z1):
     return [x0 * Q, y0 * Q, z0 * Q, x1 * Q, y1 * Q, z1 * Q]
 
 
+def _angles(spec):
+    """lattice values (quarter turns) of an angle spec: ("const", k) | ("uniform", [k..]) |
+    ("range", a, b) -- for a Range the lattice angles inside it, end points included"""
+    if spec[0] == "const":
+        return [spec[1]]
+    if spec[0] == "uniform":
+        return list(spec[1])
+    return list(range(spec[1], spec[2] + 1))
+
+
+def _angle_text(spec):
+    if spec[0] == "const":
+        return f"{90 * spec[1]} deg"
+    if spec[0] == "uniform":
+        return "Uniform(" + ", ".join(f"{90 * k} deg" for k in spec[1]) + ")"
+    return f"Range({90 * spec[1]} deg, {90 * spec[2]} deg)"
+
+
 def _obj(**kw):
+    """yaw=k is the old spelling (`facing 90k deg`); ori=(yawspec, pitchspec, rollspec) gives the
+    pose through `with yaw/pitch/roll` (constants, discrete Uniform, Range over lattice angles)"""
     o = dict(fixed=False, pos=[0, 0, 0], base=[], poly=True, off=[0, 0], sizes=[[Q, Q, Q]], yaw=0,
-             facing=False, vis="none", vd=50 * Q, mode="in", wdist=None, ldist=None)
+             facing=False, vis="none", vd=50 * Q, mode="in", wdist=None, ldist=None, ori=None)
     o.update(kw)
+    if o["ori"]:
+        o["yaws"], o["pitches"], o["rolls"] = (_angles(a) for a in o["ori"])
+    else:
+        o["yaws"], o["pitches"], o["rolls"] = [o["yaw"]], [0], [0]
     return o
 
 
@@ -190,6 +224,10 @@ def program_text(p):
         spec = [f"new {cls} {o['mode']} base{k}", _size_text(o)]
         if o["facing"]:
             spec.append("facing vf")
+        elif o["ori"]:
+            for nm_, a in zip(("yaw", "pitch", "roll"), o["ori"]):
+                if a != ("const", 0):
+                    spec.append(f"with {nm_} {_angle_text(a)}")
         else:
             spec.append(f"facing {90 * o['yaw']} deg")
         spec.append("with allowCollisions True")
@@ -217,7 +255,7 @@ def to_tla(p):
     """The JSON given to TLC: drop the printer-only fields."""
     q = dict(id=p["id"], fam=p["fam"], cont=p["cont"], field=p["field"],
              reqs=[dict(q=r["q"], form=r["form"], ops=r["ops"], cs=r["cs"], kind=r["kind"]) for r in p["reqs"]],
-             objs=[{k: o[k] for k in ("fixed", "pos", "base", "poly", "off", "sizes", "yaw", "facing", "vis", "vd")}
+             objs=[{k: o[k] for k in ("fixed", "pos", "base", "poly", "off", "sizes", "yaws", "pitches", "rolls", "facing", "vis", "vd")}
                    for o in p["objs"]])
     return q
 
@@ -251,13 +289,60 @@ def gen_cont(rnd, pid):
     return dict(id=pid, fam="cont", objs=[o], cont=cont, field=[], reqs=[])
 
 
+FLAT_WIDE = [[4 * Q, 4 * Q, Q], [4 * Q, 2 * Q, Q], [3 * Q, 3 * Q, Q], [3 * Q, 4 * Q, Q]]
+TALL_THIN = [[Q, Q, 4 * Q], [Q, 2 * Q, 4 * Q], [Q, Q, 3 * Q]]
+ANGLE_SPECS = [("const", 0), ("const", 1), ("const", -1), ("const", 2), ("uniform", [0, 1]), ("uniform", [0, 1, 2]),
+               ("uniform", [-1, 1]), ("range", 0, 1), ("range", -1, 1), ("range", 0, 2), ("range", 1, 2)]
+RANDOM_SPECS = [a for a in ANGLE_SPECS if a[0] != "const"]
+
+
+def gen_ori(rnd, pid):
+    """containment pruning of an object whose pose has a fixed non-zero or RANDOM pitch / roll /
+    yaw: flat wide objects (height << width, length) and tall thin ones, in a polygonal region
+    with a polygonal container.  Which inradius may erode the container depends on whether the
+    object is known to lie flat."""
+    W, H = rnd.choice([6, 8, 10]), rnd.choice([6, 8])
+    cont = [pbox(0, 0, W, H)]
+    if rnd.random() < 0.4:
+        x0 = rnd.randrange(0, W - 3)
+        cont.append(pbox(x0, H, x0 + rnd.choice([2, 3, 5]), H + rnd.choice([2, 3])))
+    if rnd.random() < 0.5:
+        base = [list(b) for b in cont]
+    else:
+        base = [pbox(-1, -1, W + 1, H + rnd.choice([0, 1]))]
+    sz = rnd.choice(FLAT_WIDE if rnd.random() < 0.65 else TALL_THIN)
+    kind = rnd.choice(["roll", "pitch", "both", "yaw", "fixed", "all"])
+    c0 = ("const", 0)
+    yaw = rnd.choice(ANGLE_SPECS) if kind in ("yaw", "all") or rnd.random() < 0.3 else c0
+    if kind == "yaw":
+        pitch = roll = c0
+    elif kind == "fixed":
+        pitch, roll = rnd.choice([(c0, ("const", 1)), (("const", 1), c0), (("const", -1), ("const", 1)), (("const", 2), c0)])
+    else:
+        pitch = rnd.choice(RANDOM_SPECS) if kind in ("pitch", "both", "all") else rnd.choice([c0, c0, ("const", 1)])
+        roll = rnd.choice(RANDOM_SPECS) if kind in ("roll", "both", "all") else rnd.choice([c0, c0, ("const", 1)])
+    wd = None
+    sizes = [list(sz)]
+    if rnd.random() < 0.25:  # a random width on top
+        wd = sorted({sz[0], rnd.choice([Q, 2 * Q, 3 * Q])})
+        sizes = [[w, sz[1], sz[2]] for w in wd]
+        if len(wd) == 1:
+            wd = None
+    o = _obj(base=base, sizes=sizes, wdist=wd, ori=(yaw, pitch, roll))
+    return dict(id=pid, fam="ori", objs=[o], cont=cont, field=[], reqs=[])
+
+
 def gen_box(rnd, pid):
     D = rnd.choice([4, 6])
     cont = [vbox(-D // 2, -D // 2, -D // 2, D // 2, D // 2, D // 2)]
     sx = rnd.choice([-1, 0, 1, 2])
     base = [vbox(sx - 2, -1, -1, sx + 2, 1, 1)]
     s = rnd.choice([Q, 2 * Q])
-    o = _obj(base=base, poly=False, sizes=[[s, s, rnd.choice([Q, 2 * Q])]], yaw=rnd.choice([0, 1]))
+    if rnd.random() < 0.5:
+        o = _obj(base=base, poly=False, sizes=[[s, 2 * Q, rnd.choice([Q, 2 * Q])]],
+                 ori=(rnd.choice(ANGLE_SPECS), rnd.choice(ANGLE_SPECS), rnd.choice(ANGLE_SPECS)))
+    else:
+        o = _obj(base=base, poly=False, sizes=[[s, s, rnd.choice([Q, 2 * Q])]], yaw=rnd.choice([0, 1]))
     return dict(id=pid, fam="box", objs=[o], cont=cont, field=[], reqs=[])
 
 
@@ -422,6 +507,29 @@ def core_programs(tier="quick"):
                   objs=[_obj(base=[pbox(-1, -1, 7, 8)], sizes=[[Q, 2 * Q, Q], [3 * Q, 2 * Q, Q]], wdist=[Q, 3 * Q], yaw=1)]))
     P.append(dict(id=0, fam="cont", cont=ws, field=[], reqs=[],
                   objs=[_obj(base=wide, mode="on", off=[8, 0], sizes=[[Q, Q, Q]])]))
+    # containment with a pose that is not known to be flat: a flat wide object whose roll is random
+    # with a support starting at 0 (Range and discrete Uniform), a fixed quarter-turn pitch, a
+    # random yaw on a flat object (planar inradius is right there), a tall thin object tipping over
+    sq = [pbox(0, 0, 8, 6)]
+    c0 = ("const", 0)
+    for sz, ori in [([4 * Q, 4 * Q, Q], (c0, c0, ("range", 0, 1))),
+                    ([4 * Q, 2 * Q, Q], (("range", 0, 1), ("uniform", [0, 1]), c0)),
+                    ([4 * Q, 3 * Q, Q], (c0, ("const", 1), c0)),
+                    ([4 * Q, 2 * Q, Q], (("uniform", [0, 1]), c0, c0)),
+                    ([Q, Q, 4 * Q], (c0, ("range", -1, 1), ("uniform", [0, 2])))]:
+        P.append(dict(id=0, fam="ori", cont=sq, field=[], reqs=[],
+                      objs=[_obj(base=[list(b) for b in sq], sizes=[sz], ori=ori)]))
+    # bounds written around an offset inside abs(), constant on either side of the sum/difference,
+    # either sign, both spellings of the comparison: rh within 10 degrees of +90 / -90, distance
+    # within 2 of 4
+    far = _req("dist", "Qc", ["le"], [6 * Q])
+    mirror = [[pbox(0, 0, 2, 2), 0], [pbox(3, 0, 5, 2), 90], [pbox(6, 0, 8, 2), -90]]
+    P.append(_rh_prog(mirror, [_req("rh", "abskmQ_c", ["le"], [10, 90]), far]))        # abs(90 - rh) <= 10
+    P.append(_rh_prog(mirror, [_req("rh", "c_abskmQ", ["ge"], [10, -90]), far]))       # 10 >= abs(-90 - rh)
+    P.append(_rh_prog(mirror, [_req("rh", "abskpQ_c", ["lt"], [10, -90]), far]))       # abs(-90 + rh) < 10
+    P.append(_rh_prog(mirror, [_req("rh", "c_absQmk", ["gt"], [10, -90]), far]))       # 10 > abs(rh - -90)
+    P.append(_rh_prog(three, [rh90, _req("dist", "abskmQ_c", ["le"], [2 * Q, 4 * Q])]))   # abs(4 - d) <= 2
+    P.append(_rh_prog(three, [rh90, _req("dist", "c_abskpQ", ["ge"], [6 * Q, -4 * Q])]))  # 6 >= abs(-4 + d)
     # visibility from a fixed ego
     ego = _obj(fixed=True, pos=[0, 0, 0], vd=2 * Q)
     P.append(dict(id=0, fam="vis", cont=[], field=[], reqs=[],
@@ -439,8 +547,8 @@ def core_programs(tier="quick"):
 
 def lattice_programs(tier, seed):
     rnd = random.Random(seed * 7919 + 5)
-    n = dict(cont=6, box=1, vis=2, rh_clean=6, rh_trig=6) if tier == "quick" else \
-        dict(cont=70, box=6, vis=12, rh_clean=70, rh_trig=45)
+    n = dict(cont=4, ori=3, box=1, vis=2, rh_clean=5, rh_trig=6) if tier == "quick" else \
+        dict(cont=60, ori=50, box=8, vis=12, rh_clean=70, rh_trig=45)
     progs = []
 
     def add(p):
@@ -452,6 +560,8 @@ def lattice_programs(tier, seed):
 
     for _ in range(n["cont"]):
         add(gen_cont(rnd, len(progs) + 1))
+    for _ in range(n["ori"]):
+        add(gen_ori(rnd, len(progs) + 1))
     for _ in range(n["box"]):
         add(gen_box(rnd, len(progs) + 1))
     for _ in range(n["vis"]):
